@@ -6,7 +6,8 @@
 (* come from WireOps!Fails (well-formed, Char-only, ValidTree against the  *)
 (* DSP0203 table, HeadersAgree).  Events that were generated from a case   *)
 (* of the case space are also compared with the code-shaped transcription  *)
-(* (pinned variant, else repaired variant): a difference is impl drift,    *)
+(* (repaired variant, else the originally pinned one; every case is        *)
+(* touched by at most one of the three flags): a difference is impl drift, *)
 (* never a violation.                                                      *)
 (***************************************************************************)
 EXTENDS WireOpsImplOps, Json, IOUtils
@@ -33,9 +34,9 @@ DriftOf(e, V) ==
 
 ImplCmp(i, e) ==
   IF e.shape.op = "free" THEN <<{}, i>>
-  ELSE LET d1 == DriftOf(e, "code") IN
+  ELSE LET d1 == DriftOf(e, {}) IN
        IF d1 = {} THEN <<{}, i>>
-       ELSE IF DriftOf(e, "fixed") = {} THEN <<{}, i>>
+       ELSE IF DriftOf(e, Pinned) = {} THEN <<{}, i>>
        ELSE <<d1, i>>
 
 TraceBatch == JsonDeserialize(IOEnv.TRACE_FILE).traces
